@@ -1,19 +1,22 @@
 SPECIFICATION Spec
 CONSTANTS
-  MaxClasses = 2
-  MaxOwn = 1
+  MinClasses = 1
+  MaxClasses = 3
+  MroOnly = FALSE
+  AscBases = FALSE
+  MaxOwn = 2
   MaxHard = 1
   MaxPop = 1
   PopClasses = 3
-  B1 = 2
-  B2 = 2
-  B3 = 1
+  B1 = 4
+  B2 = 4
+  B3 = 2
   B4 = 0
   B5 = 0
-  MaxChain = 1
+  MaxChain = 3
   FnOwn = 1
-  EmitAllUpTo = 0
-  Sel = 1000000
+  EmitAllUpTo = 1
+  Sel = 20
   KeepGoing = TRUE
 INVARIANT Inv
 CHECK_DEADLOCK FALSE
